@@ -8,6 +8,7 @@ import (
 	"context"
 	"strings"
 
+	"github.com/gopcua/opcua/errors"
 	"github.com/gopcua/opcua/id"
 	"github.com/gopcua/opcua/ua"
 )
@@ -45,7 +46,11 @@ func (n *Node) BrowseName(ctx context.Context) (*ua.QualifiedName, error) {
 	if err != nil {
 		return nil, err
 	}
-	return v.Value().(*ua.QualifiedName), nil
+	name, ok := v.Value().(*ua.QualifiedName)
+	if !ok {
+		return nil, errors.Errorf("invalid type for BrowseName. Want *ua.QualifiedName. nodeID=%s type=%T", n.ID, v.Value())
+	}
+	return name, nil
 }
 
 // Description returns the description of the node.
@@ -54,7 +59,11 @@ func (n *Node) Description(ctx context.Context) (*ua.LocalizedText, error) {
 	if err != nil {
 		return nil, err
 	}
-	return v.Value().(*ua.LocalizedText), nil
+	text, ok := v.Value().(*ua.LocalizedText)
+	if !ok {
+		return nil, errors.Errorf("invalid type for Description. Want *ua.LocalizedText. nodeID=%s type=%T", n.ID, v.Value())
+	}
+	return text, nil
 }
 
 // DisplayName returns the display name of the node.
@@ -63,7 +72,11 @@ func (n *Node) DisplayName(ctx context.Context) (*ua.LocalizedText, error) {
 	if err != nil {
 		return nil, err
 	}
-	return v.Value().(*ua.LocalizedText), nil
+	text, ok := v.Value().(*ua.LocalizedText)
+	if !ok {
+		return nil, errors.Errorf("invalid type for DisplayName. Want *ua.LocalizedText. nodeID=%s type=%T", n.ID, v.Value())
+	}
+	return text, nil
 }
 
 // AccessLevel returns the access level of the node.
@@ -74,7 +87,11 @@ func (n *Node) AccessLevel(ctx context.Context) (ua.AccessLevelType, error) {
 	if err != nil {
 		return 0, err
 	}
-	return ua.AccessLevelType(v.Value().(uint8)), nil
+	level, ok := v.Value().(uint8)
+	if !ok {
+		return 0, errors.Errorf("invalid type for AccessLevel. Want uint8. nodeID=%s type=%T", n.ID, v.Value())
+	}
+	return ua.AccessLevelType(level), nil
 }
 
 // HasAccessLevel returns true if all bits from mask are
@@ -93,7 +110,11 @@ func (n *Node) UserAccessLevel(ctx context.Context) (ua.AccessLevelType, error) 
 	if err != nil {
 		return 0, err
 	}
-	return ua.AccessLevelType(v.Value().(uint8)), nil
+	level, ok := v.Value().(uint8)
+	if !ok {
+		return 0, errors.Errorf("invalid type for UserAccessLevel. Want uint8. nodeID=%s type=%T", n.ID, v.Value())
+	}
+	return ua.AccessLevelType(level), nil
 }
 
 // HasUserAccessLevel returns true if all bits from mask are
